@@ -449,6 +449,13 @@ class DiffXWriter(object):
         section = self._build_section(section_level, section_name)
         self._validate_section(section)
 
+        # Write the header first. If it can't be written (for instance, an
+        # option value can't be represented in the header), we must not have
+        # altered any state.
+        self._write_section_header(section=section,
+                                   encoding=encoding,
+                                   **options)
+
         # If we're writing a new section at the current level, or moving up
         # levels, we'll need to pop the appropriate number of sections off
         # the stack.
@@ -458,10 +465,6 @@ class DiffXWriter(object):
         self._stack.append({
             'encoding': encoding or self._cur_encoding,
         })
-
-        self._write_section_header(section=section,
-                                   encoding=encoding,
-                                   **options)
 
     def _new_content_section(self,
                              section_name,
@@ -553,14 +556,16 @@ class DiffXWriter(object):
             if _value is not None
         )
 
-        fp = self.fp
-        fp.write(b'#%s:' % section.encode('ascii'))
+        # Build the entire header before writing anything, so that a header
+        # that can't be encoded never results in a partial write.
+        header = b'#%s:' % section.encode('ascii')
 
         if options_str:
-            fp.write(b' ')
-            fp.write(options_str.encode('ascii'))
+            header += b' ' + options_str.encode('ascii')
 
-        fp.write(b'\n')
+        header += b'\n'
+
+        self.fp.write(header)
 
         self._prev_section = section
 
